@@ -27,8 +27,10 @@ class Net:
         else:
             addrs = self.resolver(host, port)
         out = []
-        for fam, ip in addrs:
-            sa = (ip, port) if fam == _real_socket.AF_INET else (ip, port, 0, 0)
+        for ent in addrs:
+            fam, ip = ent[0], ent[1]
+            scope = ent[2] if len(ent) > 2 else 0  # IPv6 scope id (link-local addresses reachable through several interfaces)
+            sa = (ip, port) if fam == _real_socket.AF_INET else (ip, port, 0, scope)
             out.append((fam, _real_socket.SOCK_STREAM, 6, "", sa))
         return out
 
